@@ -126,6 +126,50 @@ def rule_a(ctx: Context, R: Reporter, wrapper: FuncInfo, disp: FuncInfo):
                     msg=f"{wrapper.short}: `{unparse(c)[:70]}` maps the likelihood over `{unparse(pts) if pts is not None else '?'}`, not over the batch it was given: a permuted, "
                         f"de-duplicated or sub-selected batch changes what the user function sees (and how often) depending on the evaluation mode", key=f"mapper-batch:{norm_text(c.func)[:40]}")
     R.floor("C13.a", "map sites in the wrapper", n, 2)
+    # laziness: builtin map (also what the dispatcher returns for a pool of <= 1 processes) yields a one-shot iterator;
+    # the result must be materialised before it is subscripted, measured or iterated a second time
+    disp_may_be_lazy = any(isinstance(rn.stmt.value, ast.Name) and rn.stmt.value.id == "map" for rn in rets)
+    parents = {}
+    for x in ast.walk(wrapper.node):
+        for ch in ast.iter_child_nodes(x):
+            parents[id(ch)] = x
+    for c in calls_in(wrapper.node):
+        if not any(_is_user_like_ref(a) for a in c.args):
+            continue
+        lazy = (isinstance(c.func, ast.Name) and c.func.id == "map") or (isinstance(c.func, ast.Call) and disp_may_be_lazy)
+        if not lazy:
+            continue
+        par = parents.get(id(c))
+        if isinstance(par, ast.Call) and dotted(par.func) in ("list", "tuple", "np.array", "np.asarray", "numpy.array", "np.fromiter") and par.args and par.args[0] is c:
+            R.check("C13.a", "a lazily mapped result is materialised before use", True, wrapper, c, key=f"materialised:{norm_text(c.func)[:40]}")
+            continue
+        bad_use = None
+        if isinstance(par, ast.Assign) and len(par.targets) == 1 and isinstance(par.targets[0], ast.Name):
+            nm_ = par.targets[0].id
+            wfl = flow_of(wrapper.node)
+            dn = wfl.node_containing(par)
+            iters = 0
+            for u in ast.walk(wrapper.node):
+                if isinstance(u, ast.Name) and u.id == nm_ and isinstance(u.ctx, ast.Load):
+                    un = wfl.node_containing(u)
+                    if un is None or dn is None or not any(d.node is dn for d in wfl.reaching(un, nm_)):
+                        continue
+                    up = parents.get(id(u))
+                    if isinstance(up, ast.Subscript) and up.value is u:
+                        bad_use = bad_use or f"`{unparse(up)[:30]}` subscripts it"
+                    elif isinstance(up, ast.Call) and dotted(up.func) == "len":
+                        bad_use = bad_use or f"`{unparse(up)[:30]}` measures it"
+                    elif isinstance(up, ast.comprehension) or (isinstance(up, ast.For) and up.iter is u):
+                        iters += 1
+                    elif isinstance(up, (ast.BoolOp, ast.If, ast.IfExp, ast.UnaryOp)):
+                        bad_use = bad_use or f"`{unparse(up)[:30]}` tests its truth value (an iterator is always true)"
+            if bad_use is None and iters > 1:
+                bad_use = f"it is iterated {iters} times"
+        elif par is not None and not isinstance(par, (ast.For, ast.comprehension)):
+            bad_use = None
+        R.check("C13.a", "a lazily mapped result is materialised before use", bad_use is None, wrapper, c,
+                msg=f"{wrapper.short}: `{unparse(c)[:60]}` may be a one-shot iterator (builtin map" + (", which the dispatcher returns for a serial pool" if isinstance(c.func, ast.Call) else "")
+                    + f") and is not wrapped in list(...): {bad_use} -- TypeError / empty second pass for that evaluation mode only", key=f"materialised:{norm_text(c.func)[:40]}")
     # direct (vectorised) call: on the batch itself
     for c in calls_in(wrapper.node):
         if _is_user_like_ref(c.func):
@@ -546,6 +590,8 @@ def variants():
         Variant("c-warmup-miscount", "bad", replace_expr(mu, "Mutator.run", "self.state.get_current('calls') + self.n_particles", "self.state.get_current('calls') + 1"), ["C13.c"]),
         Variant("c-total-added-twice", "bad", insert_after(mu, "Mutator.run", "self.state.set_current('calls', calls)", "self.state.set_current('calls', calls + mcmc_calls)"), ["C13.c"]),
         Variant("c-total-dropped", "bad", replace_stmt(mu, "Mutator.run", "calls = self.state.get_current('calls') + mcmc_calls", "calls = self.state.get_current('calls')"), ["C13.c"]),
+        Variant("a-lazy-results", "bad", replace_expr(core, "SamplerCore._log_like", "list(self._get_distribute_func()(self.config.log_likelihood, x))", "self._get_distribute_func()(self.config.log_likelihood, x)"), ["C13.a"], quick=True),
+        Variant("a-benign-tuple-results", "benign", replace_expr(core, "SamplerCore._log_like", "list(self._get_distribute_func()(self.config.log_likelihood, x))", "tuple(self._get_distribute_func()(self.config.log_likelihood, x))")),
         Variant("benign-rename-results", "benign", alpha_rename(core, "SamplerCore._log_like", "results", "vals"), quick=True),
         Variant("benign-rename-mcmc-calls", "benign", alpha_rename(mu, "Mutator.run", "mcmc_calls", "n_new")),
     ]
